@@ -39,7 +39,33 @@ Definition e_utf8_dec (v : val) : val :=
   match utf8_dec (get_b v) with Some t => VL [VB t] | None => VL [] end.
 Definition e_utf8_enc (v : val) : val := VB (utf8_enc (get_b v)).
 
+(* the two patterns of reply.py as the code uses them, and the constructor *)
+Definition e_msgpat (v : val) : val :=   (* message_esc_pattern: [group(1); value[end(0):]] or [] *)
+  match msg_esc_group1 udigit uspace (get_b v) with
+  | Some (g, rest) => VL [VB g; VB rest]
+  | None => VL []
+  end.
+Definition e_escpat (v : val) : val :=   (* esc_pattern: groups() or [] *)
+  match match_esc_pattern udigit (get_b v) with
+  | Some (k, subj, det) => VL [VB [k]; VB subj; VB det]
+  | None => VL []
+  end.
+Definition e_codepat (v : val) : val := vbool (match_code_pattern udigit (get_b v)).
+Definition e_ctor (v : val) : val :=     (* Reply(code, text): [0; code; raw_message; message; [esc]] | [1] bad code | [2] bad ESC *)
+  match v with
+  | VL [VB code; VB msg] =>
+      match reply_ctor udigit uspace code msg with
+      | CtorOk r => VL [VN 0; VB (r_code r); VB (r_msg r); VB (get_message r);
+                        match get_esc r with Some e => VL [VB e] | None => VL [] end]
+      | CtorBadCode => VL [VN 1]
+      | CtorBadEsc => VL [VN 2]
+      end
+  | _ => verr
+  end.
+
 Definition entries : list entry :=
   [("c17_wire"%string, e_wire); ("c17_getmsg"%string, e_getmsg); ("c17_recv"%string, e_recv);
    ("c17_norm"%string, e_norm); ("c17_udigit"%string, e_udigit); ("c17_uspace"%string, e_uspace);
-   ("utf8_dec"%string, e_utf8_dec); ("utf8_enc"%string, e_utf8_enc)].
+   ("utf8_dec"%string, e_utf8_dec); ("utf8_enc"%string, e_utf8_enc);
+   ("c17_msgpat"%string, e_msgpat); ("c17_escpat"%string, e_escpat); ("c17_codepat"%string, e_codepat);
+   ("c17_ctor"%string, e_ctor)].
